@@ -993,6 +993,18 @@ def Rating (score : Nat) : ((List Nat) × Go.Err) :=
 def const_header : List Nat :=
   ([67, 86, 83, 83, 58, 51, 46, 49, 47] : List Nat)
 
+/-- functions containing a pre-sized buffer `make([]T, 0, cap)` (one entry per occurrence) -/
+def pkg_presized : List String :=
+  ["CVSS31.Vector"]
+
+/-- every mention of package unsafe (function or `decl`:unsafe.X, one entry per occurrence) -/
+def pkg_unsafe_all : List String :=
+  ["CVSS31.Vector:unsafe.Pointer"]
+
+/-- sha256 (first 16 hex digits) of each verification hooks file -/
+def hook_sha : List String :=
+  ["zz_verif_hooks.go:08a0f61bf7889999"]
+
 /-- import paths of the package's source files (alias=path when renamed) -/
 def pkg_imports : List String :=
   ["errors", "fmt", "math", "strings", "unsafe"]
